@@ -291,20 +291,60 @@ func (c *specCtx) pkgOf(t types.Type) *types.Package {
 }
 
 func (x *Unit) readPath(st *State, v Val, path []int) Val {
-	for _, idx := range path {
-		stt, name, isPtr := structOfType(v.Typ)
-		if stt == nil {
-			return Val{x.fresh("bad", SInt), nil}
-		}
-		f := stt.Field(idx)
-		if isPtr {
-			h := x.heapGet(st, name+"."+f.Name(), ArraySort(SInt, x.u.SortOf(f.Type())))
-			v = Val{Select(h, v.T), f.Type()}
-		} else {
+	var cur *LV
+	if _, ok := under(v.Typ).(*types.Pointer); ok {
+		cur = &LV{kind: lvBlank, ref: v.T, typ: v.Typ}
+	} else {
+		// struct value: plain datatype selection
+		for _, idx := range path {
+			stt, _, isPtr := structOfType(v.Typ)
+			if stt == nil {
+				return Val{x.fresh("bad", SInt), nil}
+			}
+			if isPtr {
+				return x.readPath(st, v, path)
+			}
+			f := stt.Field(idx)
 			v = Val{x.u.StructField(v.T, idx), f.Type()}
+			path = path[1:]
+			if _, ok := under(v.Typ).(*types.Pointer); ok && len(path) > 0 {
+				return x.readPath(st, v, path)
+			}
 		}
+		return v
 	}
-	return v
+	lv := x.walkFields(st, cur, v.Typ, path)
+	if av, ok := x.atomicView(st, lv); ok {
+		return x.readLV(st, av)
+	}
+	return x.readLV(st, lv)
+}
+
+// atomicView: a field of an atomic type is seen in contracts as the value of its cell.
+func (x *Unit) atomicView(st *State, lv *LV) (*LV, bool) {
+	if lv == nil || lv.kind != lvHeap || !strings.HasPrefix(lv.key, "struct:") {
+		return nil, false
+	}
+	tn := types.TypeString(types.Unalias(lv.typ), nil)
+	if tn == "sync.Once" {
+		return &LV{kind: lvHeap, key: "atomic:sync_Once", ref: lv.ref, srt: SBool, typ: boolT}, true
+	}
+	if !strings.HasPrefix(tn, "go.uber.org/atomic.") && !strings.HasPrefix(tn, "sync/atomic.") {
+		return nil, false
+	}
+	var vt types.Type = types.Typ[types.Int64]
+	srt := SInt
+	switch {
+	case strings.HasSuffix(tn, ".Bool"):
+		vt, srt = boolT, SBool
+	case strings.HasSuffix(tn, ".String"):
+		vt, srt = types.Typ[types.String], SStr
+	case strings.HasSuffix(tn, ".Float64"):
+		vt, srt = realT, SReal
+	case strings.HasSuffix(tn, ".Time"):
+		vt, srt = intT, SInt
+	}
+	return &LV{kind: lvHeap, key: "atomic:" + mangle(tn), ref: lv.ref, srt: srt, typ: vt}, true
 }
 
 func (x *Unit) spIndex(st *State, b, i Val, e ast.Node) Val {
@@ -469,6 +509,19 @@ func (x *Unit) spCall(st *State, e *ast.CallExpr, c *specCtx) Val {
 	case "doneAt":
 		ctx := arg(0)
 		return Val{x.uf("doneAt", SInt, ctx.T), intT}
+	case "once":
+		lv := x.specLV(st, e.Args[0], c)
+		if lv == nil {
+			return Val{True, boolT}
+		}
+		return x.readLV(st, lv)
+	case "held":
+		lv := x.specLV(st, e.Args[0], c)
+		if lv == nil {
+			return Val{True, boolT}
+		}
+		g := x.ghostGet(st, "lockHeld")
+		return Val{Select(x.u.MapVal(g.T), x.interiorAddr(st, lv, e)), intT}
 	case "has":
 		m, k := arg(0), arg(1)
 		if mt, ok := under(m.Typ).(*types.Map); ok {
@@ -756,7 +809,11 @@ func (x *Unit) specLV(st *State, e ast.Expr, c *specCtx) *LV {
 				return nil
 			}
 		}
-		return x.walkFields(st, cur, base.Typ, path)
+		lv := x.walkFields(st, cur, base.Typ, path)
+		if av, ok := x.atomicView(st, lv); ok {
+			return av
+		}
+		return lv
 	case *ast.IndexExpr:
 		p := x.specLV(st, e.X, c)
 		if p == nil {
